@@ -67,7 +67,7 @@ Undocumented(c, cs, ln) ==
   \/ ln.op \in JsonOps /\ JForce(ln) /\ IsForm(c) /\ ~c.shallow
 \* the call itself is decided (its result is judged), what the request holds afterwards is not
 OpenAfter(c, cs, ln) ==
-  ln.op \in JsonOps /\ ~JCache(ln) /\ JsonTries(c, ln) /\ cs.dc = None /\ ~c.shallow
+  ln.op \in JsonOps /\ ~JCache(ln) /\ JsonTries(c, ln) /\ cs.dc = None /\ ~c.shallow /\ cs.pos < c.n
 
 ---------------------------------------------------------------------------
 (* Universal clauses: hold after any history, also an undocumented one.                            *)
